@@ -83,8 +83,10 @@ def run(ctx, builddir):
     ctx.rule = (
         "programs = prefix + every sequence over the adaptive alphabet {BS, PSs(str param), MZ(str+callable params), "
         "Kc(str condition), PSl(lambda condition), Iall('all modes', callable matrix), Iarr(ndarray param), "
-        "M(mid-circuit measurement on modes (3,1) of 4 => later modes are REMAPPED), B1} up to depth 2 (quick) / 3 plus "
-        "all depth-4 placements of M among {PSs,MZ,Iall,Kc} (thorough), on PureFock/Fock/Gaussian/Passive simulators; "
+        "M(mid-circuit measurement on modes (3,1) of 4 => later modes are REMAPPED), B1}: quick = every sequence over "
+        "{PSs,MZ,Iall,M} up to depth 2 plus four RICH depth-4 programs (Fock simulator: the RICH programs only); thorough = "
+        "depth <= 2 over all nine, depth 3 over eight, all depth-4 placements of M among {PSs,MZ,Iall,Kc}; on "
+        "PureFock/Fock/Gaussian/Passive simulators; "
         "x construction variant {with-block, instruction list, nested registration} x operation x fault point "
         "(none | every (position, stage, branch visit) | every API-layer line event).  A case is distinct by "
         "(simulator, body, variant, operation, fault point); non-trivial = every case (each one runs the real "
@@ -113,7 +115,12 @@ def run(ctx, builddir):
         "branch visits b per (position, stage) are enumerated 0..%d (quick) / 0..%d (thorough), all visits for the "
         "four RICH depth-4 programs" % (B_CAP["quick"] - 1, B_CAP["thorough"] - 1)
     )
-    core.pmap(ctx, "mc.checks.c12", "work", items, builddir)
+    if ctx.tier == "quick":
+        ctx.assume(
+            "quick tier shrunk to ~3 CPU-minutes: alphabet {PSs,MZ,Iall,M} depth<=2 + 4 RICH programs, line-level faults on one "
+            "PureFock program (all operations), arrays up to n=3/4; the thorough tier is a superset"
+        )
+    core.pmap(ctx, "mc.checks.c12", "work", items, builddir, procs=8 if ctx.tier == "quick" else None)
     c = ctx.counters
     return {
         "evaluations": c.get("cases", 0) + c.get("array_calls", 0),
